@@ -142,6 +142,13 @@ func vfC22ProbeList() []vfProbe {
 				rng := vfOp("and", vfOp("gt", vfColRef("a"), vfConst(vfInt(5))), vfOp("lt", vfColRef("a"), vfConst(vfInt(5))))
 				return vfWhere(vfT("t"), vfOp("or", vfOp("gt", vfColRef("a"), vfConst(vfInt(1))), rng))
 			}},
+		{"leftjoin-intersect-singleton", // x leftjoin ((t3 intersect t5) extend g = -1), t5 has key()
+			[]*vfTable{vfMkTable("t3", vfNums("m", "a"), [][]string{{"m"}}, nil, vfInts(1, 1), vfInts(2, 2)),
+				vfMkTable("t5", vfNums("m", "a"), [][]string{{}}, nil, vfInts(1, 1)),
+				vfMkTable("x", vfNums("g", "z"), [][]string{{"z"}}, nil, vfInts(-1, 1), vfInts(5, 2))},
+			func() *vfNode {
+				return vfBin("leftjoin", vfT("x"), vfExt(vfBin("intersect", vfT("t3"), vfT("t5")), "g", vfConst(vfInt(-1))))
+			}},
 		// a few healthy ones: documented examples in small
 		{"leftjoin-where-right-is-empty", // rows without partner have "" on the right: where z is "" keeps exactly them
 			[]*vfTable{tk("t", vfInts(1, 5), vfInts(2, 6)), vfMkTable("u", vfNums("k", "z"), [][]string{{"k"}}, nil, vfInts(2, 1))},
